@@ -1551,6 +1551,144 @@ def run_types(ctx):
                 ctx.violation(f"C03:{CLASSNAME[kind]}:noise-depends-on-parameter-dtype", bad, {"check": "param-type", "what": bad})
 
 
+# ------------------------------------------------------------------------------------------------ cross-instance state
+
+import contextlib
+import importlib
+import sys
+
+
+@contextlib.contextmanager
+def fresh_mechanisms():
+    """a freshly executed copy of diffprivlib.mechanisms (+ utils, validation): new class objects, hence pristine class-level
+    memos, module-level caches and default-argument mutables — the state of 'this instance constructed alone'"""
+    global M
+    names = [k for k in sys.modules if k in ("diffprivlib.utils", "diffprivlib.validation", "diffprivlib.mechanisms")
+             or k.startswith("diffprivlib.mechanisms.")]
+    saved = {k: sys.modules.pop(k) for k in names}
+    old_M = M
+    try:
+        M = importlib.import_module("diffprivlib.mechanisms")
+        yield M
+    finally:
+        for k in [k for k in sys.modules if k in saved or k.startswith("diffprivlib.mechanisms.")]:
+            del sys.modules[k]
+        sys.modules.update(saved)
+        M = old_M
+        import diffprivlib
+        diffprivlib.mechanisms = saved["diffprivlib.mechanisms"]
+        diffprivlib.utils = saved["diffprivlib.utils"]
+        diffprivlib.validation = saved["diffprivlib.validation"]
+
+
+CROSS_FIELDS = {"lap": ["eps", "delta", "sens"], "trunc": ["eps", "delta", "sens", "lo", "hi"], "fold": ["eps", "delta", "sens", "lo", "hi"],
+                "bdom": ["eps", "delta", "sens", "lo", "hi"], "bnoise": ["eps", "delta", "sens"], "gauss": ["eps", "delta", "sens"],
+                "gaussA": ["eps", "delta", "sens"], "dgauss": ["eps", "delta", "sens"], "stair": ["eps", "gamma", "sens"],
+                "unif": ["delta", "sens"], "vec": ["eps", "fs", "ds", "alpha", "d", "n"], "snap": ["eps", "sens", "lo", "hi"]}
+
+
+def gen_cross(kind, r):
+    """2–4 parameter sets that differ in exactly one field from their predecessor (or not at all), in random order"""
+    base = gen_case(kind, r)
+    p = dict(base["params"])
+    if kind in ("lap", "trunc", "fold") and p["eps"] == 0.0:
+        p["eps"] = 0.5
+    script = dict(base["script"])
+    if kind == "vec":
+        script["normals"] = [r.normal() for _ in range(24)]
+    if kind == "dgauss":
+        p["eps"], p["delta"] = r.choice([1.0, p["eps"]]), r.choice([0.1, p["delta"]])
+    members = [dict(p)]
+    for _ in range(r.randint(1, 3)):
+        q = dict(members[-1])
+        if r.chance(0.2):
+            members.append(q)            # an identical twin
+            continue
+        f = r.choice(CROSS_FIELDS[kind])
+        other = gen_case(kind, r)["params"]
+        if f == "sens" and kind == "dgauss":
+            q["sens"] = r.choice([v for v in (1, 2, 3, 5) if v != q["sens"]])
+        elif f in ("lo", "hi"):
+            w = q["hi"] - q["lo"]
+            q[f] = q[f] + (1 if f == "hi" else -1) * w * r.uniform(0.1, 1.0)
+        elif f == "sens" and kind == "bdom":
+            q["sens"] = (q["hi"] - q["lo"]) * r.uniform(0.05, 1.0)
+        elif f == "eps" and kind in ("lap", "trunc", "fold"):
+            q["eps"] = other["eps"] if other["eps"] > 0 else 0.7
+        else:
+            q[f] = other[f]
+        members.append(q)
+    r.shuffle(members)
+    x = base["xs"][1] if kind != "vec" else 0
+    return {"kind": kind, "members": members, "x": x, "script": script,
+            "again": [r.chance(0.5) for _ in members]}
+
+
+def cross_instance_case(cc):
+    """every member's release on the scripted stream, when constructed among the others (interleaved with releases of the
+    earlier ones), must be bit-identical to its release when constructed alone in a pristine copy of the package"""
+    kind, x, sc = cc["kind"], cc["x"], cc["script"]
+
+    def one(p, rng=None):
+        rng = rng or make_rng(kind, sc)
+        m = mk_mech(kind, p, rng)
+        return m, rng, released(kind, m, x, p)
+    refs = []
+    try:
+        for p in cc["members"]:
+            with fresh_mechanisms():
+                refs.append(one(p)[2])
+        live = []
+        for i, p in enumerate(cc["members"]):
+            m, rng, rel = one(p)
+            live.append((m, rng, p))
+            if rel != refs[i] and not (rel != rel and refs[i] != refs[i]):
+                return (f"instance #{i} {CLASSNAME[kind]}({p}), constructed after {[q for q in cc['members'][:i]]}, releases {rel!r} for "
+                        f"input {x!r}; constructed alone (pristine package state) it releases {refs[i]!r} on the same stream")
+            if cc["again"][i] and i > 0:
+                j = i - 1
+                mj, rj, pj = live[j]
+                rewind(mj._rng if kind == "stair" else rj)
+                rel2 = released(kind, mj, x, pj)
+                if rel2 != refs[j] and not (rel2 != rel2 and refs[j] != refs[j]):
+                    return (f"instance #{j} {CLASSNAME[kind]}({pj}) releases {rel2!r} once {CLASSNAME[kind]}({p}) exists; alone it "
+                            f"releases {refs[j]!r} on the same stream")
+    except seams.ScriptExhausted:
+        return None
+    return None
+
+
+def run_cross_instance(ctx, kinds=None, prop="C03"):
+    r = ctx.fork("cross-instance")
+    n = min(ctx.budget(4, 40), 12 if ctx.tier == "quick" else 40)
+    for kind in (kinds or KINDS):
+        rk = r.fork(kind)
+        for _ in range(n):
+            cc = gen_cross(kind, rk)
+            ctx.case(("cross-instance", kind, len(cc["members"]), repr(cc["members"])[:120]))
+            bad = cross_instance_case(cc)
+            if bad:
+                ctx.violation(f"{prop}:{CLASSNAME[kind]}:cross-instance-state", bad, {"check": "cross-instance", "cc": cc})
+            else:
+                ctx.trace_ok()
+    # the coarse-key pattern spelled out: same epsilon and delta, different sensitivity, both orders
+    for kind in (kinds or KINDS):
+        if kind in ("gauss", "gaussA", "dgauss", "bnoise", "lap"):
+            for order in (0, 1):
+                base = {"eps": 1.0, "delta": 0.1, "sens": 1}
+                mem = [dict(base), dict(base, sens=3)] if kind == "dgauss" else [dict(base, sens=1.0), dict(base, sens=3.0)]
+                if order:
+                    mem.reverse()
+                sc = {"u": [rk.u01() for _ in range(400)], "normals": [0.3, -1.1]}
+                cc = {"kind": kind, "members": mem, "x": 0 if kind == "dgauss" else 0.0, "script": sc, "again": [False, True]}
+                bad = cross_instance_case(cc)
+                ctx.case(("cross-instance-fixed", kind, order))
+                if bad:
+                    ctx.violation(f"{prop}:{CLASSNAME[kind]}:cross-instance-state", bad, {"check": "cross-instance", "cc": cc})
+                else:
+                    ctx.trace_ok()
+
+
 # ------------------------------------------------------------------------------------------------ long rejection runs
 
 def batch_sizes(n_candidates):
@@ -1886,6 +2024,7 @@ def check(ctx):
     run_longruns(ctx)
     run_low_acceptance(ctx)
     run_types(ctx)
+    run_cross_instance(ctx)
     run_bingham(ctx)
     run_stats(ctx)
 
@@ -1895,6 +2034,8 @@ def replay(ctx, data):
     if d.get("check") == "stat":
         res = stat_test(d["name"], d["params"], int(d["seed"]), int(d["n"]))
         return any(not rec[1] <= rec[2] for rec in res)
+    if d.get("check") == "cross-instance":
+        return cross_instance_case(d["cc"]) is not None
     if d.get("check") == "input-type":
         return input_type_case(d["tc"])[0] is not None
     if d.get("check") == "longrun":
@@ -1956,13 +2097,6 @@ def _dtype_witness(kind, p, x, script):
     return w
 
 
-WITNESSES = {"C03:bingham:law:acceptance-inverted": _witness_bingham,
-             "C03:Staircase:noise-computed-in-input-dtype": _dtype_witness(
-                 "stair", {"eps": 1.0, "gamma": None, "sens": 0.1}, 2.0 ** 24, {"u": [0.75, 0.5, 0.25], "geom": [2]}),
-             "C03:Uniform:noise-computed-in-input-dtype": _dtype_witness(
-                 "unif", {"delta": 0.25, "sens": 0.1}, 2.0 ** 24, {"u": [0.875]}),
-             "C03:Snapping:noise-computed-in-input-dtype": _dtype_witness(
-                 "snap", {"eps": 1.0, "sens": 1.0, "lo": 2.0 ** 30 - 16, "hi": 2.0 ** 30 + 48}, 2.0 ** 30,
-                 {"bits": [1, 1234567890123, 7]})}
+WITNESSES = {"C03:bingham:law:acceptance-inverted": _witness_bingham}
 for _cls, (_k, _p1, _a, _p2, _x, _sc) in _STALE.items():
     WITNESSES[f"C03:{_cls}:stale-scale-after-assignment"] = _stale_witness(_k, _p1, _a, _p2, _x, _sc)
